@@ -44,7 +44,7 @@ static void check_image(Pair const& p, const char* /*what*/) {
   vf_assert(g_src[c2] == 1000 + c2 && g_srcL[c2] == 1000 + c2, "source storage unchanged");
 }
 template<class V> static void check_not_rebound(V const& v, Spec<D> const& s) {
-  vf_assert(v.base() == g_dst + s.origin, "destination view still has its base (not rebound)");
+  vf_assert(raw_of(v.base()) == g_dst + s.origin, "destination view still has its base (not rebound)");
   vf_assert(v.layout() == Lay<D>::make(s.d), "destination view still has its layout (not resized)");
 }
 
